@@ -8,5 +8,8 @@ cp /repo/go.sum harness/go.sum
 (cd harness && go build -o ../work/factgen ./cmd/factgen && go build -tags verif -o ../work/corr .)
 rm -f lean/Generated/*.lean
 ./work/factgen -repo /repo -out lean/Generated -sigs work/sigs.json
-(cd lean && lake build)
+# models + driver must build; proof modules are pre-built here to warm the cache, and each
+# property's own check re-builds and audits its module (a failure there is reported by that check)
+(cd lean && lake build Generated Orb Driver orbdriver)
+(cd lean && lake build OrbProofs) || echo "setup: some proof modules did not build (reported by the affected checks)"
 echo setup done
